@@ -12,6 +12,7 @@ import (
 	"math/big"
 	"sort"
 	"strings"
+	"sync"
 
 	"golang.org/x/tools/go/ssa"
 )
@@ -98,6 +99,8 @@ type Gen struct {
 	tagAnc     map[int]map[int]bool
 	// iterations of unrolled loops with cut points are verified independently: each gets a synthetic tag whose
 	// ancestors are the code before the loop (not the earlier iterations, which the cut point forgets)
+	tagMu       sync.Mutex
+	usedAts     map[*AtStmt]bool
 	tagOverride int
 	synAnc      map[int]map[int]bool
 	synOwner    map[int]int
@@ -888,11 +891,12 @@ func (g *Gen) run() {
 	g.unrolledBody = map[*ssa.BasicBlock]bool{}
 	g.inUnroll = map[*ssa.BasicBlock]bool{}
 	g.doneBlocks = map[*ssa.BasicBlock]bool{}
+	g.computeTagAnc() // before any obligation is rendered (rendering runs concurrently)
 	for _, b := range g.order {
 		g.dispatch(b)
 	}
 	for _, as := range g.ct.Ats {
-		if !as.Used {
+		if !g.usedAts[as] {
 			g.bindFail(fmt.Sprintf("ghost statement at %s %s %d: program point not found", as.PointKind, as.Callee, as.Ordinal))
 		}
 	}
@@ -1680,4 +1684,11 @@ func (g *Gen) isAncTag(l, o int) bool {
 		return g.tagAnc[o][g.synOwner[l]]
 	}
 	return g.tagAnc[o][l]
+}
+
+func (g *Gen) markUsed(as *AtStmt) {
+	if g.usedAts == nil {
+		g.usedAts = map[*AtStmt]bool{}
+	}
+	g.usedAts[as] = true
 }
